@@ -21,6 +21,9 @@ class C04(Prop):
     LEAN_MODULES = ["Proofs.C04"]
     PARALLEL = 16
     THEOREMS = [
+        "PylifeVerif.C04.memory3_symmetric",
+        "PylifeVerif.C04.pass2_all_closed",
+        "PylifeVerif.HCM.flush_of_twoDistinct",
         "PylifeVerif.C04.hcm_insert_nonreversal_interior",
         "PylifeVerif.C04.hcm_append_nonreversal",
         "PylifeVerif.C04.periodicRainflow_insert",
@@ -29,7 +32,7 @@ class C04(Prop):
         "PylifeVerif.C04.cyclicReversals_insert",
         "PylifeVerif.C04.cyclicReversals_rotate",
     ]
-    PARTIAL = {}
+    PARTIAL = {"PylifeVerif.C04.pass2_eq_periodicRainflow": "the end-to-end statement 'pass-2 load ranges are a permutation of Spec.periodicRainflow' is being proved (prover at work); until it is listed under theorems it is decided by the correspondence + reference oracle only (test, not proof)"}
     RULE = ("case = load sequence (>= 2 distinct values) for one assessment point with an exact stub notch law; quick: all sequences over "
             "5 load levels up to length 5 + seeded random sequences (<= 14 samples, 9 levels / dyadic non-integers) incl. refinements by "
             "non-reversal samples; junction classes are tagged and counted; non-trivial = pass 2 records at least one hysteresis; distinct by sequence")
